@@ -7,6 +7,7 @@ import (
 	"io"
 	"reflect"
 	"sort"
+	"sync"
 	"testing"
 	"time"
 	"verifharness/fake"
@@ -590,6 +591,7 @@ func TestC02(t *testing.T) {
 	c02twins(rep, vh.Sub(seed, "c02-twins"))
 	c02reinit(rep, vh.Sub(seed, "c02-reinit"))
 	c02swap(rep, vh.Sub(seed, "c02-swap"))
+	c02freshShared(rep, vh.Sub(seed, "c02-fresh"), genv)
 	rep.Floor("damaged_streams", 1000)
 	rep.Floor("valid_frames", 50)
 	rep.Floor("long_chunked_streams", 20)
@@ -684,6 +686,50 @@ func c02twins(rep *vh.Report, r *vh.RNG) {
 						return
 					}
 				}
+			}
+		}
+	}
+}
+
+// c02freshShared: a dialect table that has only just been initialised, shared at once by several readers on goroutines
+// of their own (the channels of a node that all come up together): the very first frames, of one and the same message
+// type, arrive on all of them at the same instant. Each is a well-formed frame with the correct checksum: delivered.
+func c02freshShared(rep *vh.Report, r *vh.RNG, genv *gateEnv) {
+	sorted := genv.sorted()
+	n := vh.Pick(400, 6000)
+	for it := 0; it < n && rep.NViolations() < 20; it++ {
+		mi := sorted[r.Intn(len(sorted))]
+		drw, err := newDialectRW(mi.Msg)
+		if err != nil {
+			return
+		}
+		sp, _ := validFrame(r, mi, 2, 0, false, nil)
+		wire := ref.Serialize(sp)
+		const G = 4
+		var start, done sync.WaitGroup
+		start.Add(1)
+		errs := make([]error, G)
+		for g := 0; g < G; g++ {
+			done.Add(1)
+			go func(g int) {
+				defer done.Done()
+				rd := &frame.Reader{ByteReader: bytes.NewReader(wire), DialectRW: drw}
+				if rd.Initialize() != nil {
+					return
+				}
+				start.Wait()
+				_, errs[g] = rd.Read()
+			}(g)
+		}
+		start.Done()
+		done.Wait()
+		rep.Eval(G)
+		rep.Count("first_frames_on_fresh_shared_dialects", G)
+		for g := 0; g < G; g++ {
+			if errs[g] != nil {
+				rep.Violation("kind=undelivered msg=fresh-shared", "a well-formed frame with the correct checksum, the first of its type on a freshly initialised dialect shared by several readers, was rejected: "+errs[g].Error(),
+					map[string]interface{}{"msg": mi.Name, "wire": vh.Hex(wire), "iteration": it})
+				break
 			}
 		}
 	}
